@@ -84,3 +84,36 @@ Theorem C04_translated_root_from_paths_is_model :
     ok_opt (gen_root_from_paths H v index data paths) = ok_opt (root_from_paths H v index data paths).
 Proof. exact gen_root_from_paths_model. Qed.
 Print Assumptions C04_translated_root_from_paths_is_model.
+
+(* ---- the tree-building half of src/merkle.rs, translated on this run: push_leaf, is_empty, reset,
+   get_paths (`while !self.levels[level].is_empty()` on fuel) and compute_root (`while node_count > 1`
+   over the in-place level vectors, the zero-node padding, the pair-hash loop, the final pop and
+   finalize_output). Each computes what the model computes, or both fail. `lvs` is `self.levels`,
+   the tree of the model is `mktree lvs v`. ---- *)
+Require RV.Proofs.CodeLib RV.Proofs.CodeTree.
+Theorem C04_translated_compute_root_is_model :
+  forall H, HashLen H -> forall v lvs,
+  ok_opt (gen_compute_root H v lvs)
+  = RV.Proofs.CodeLib.obo (ok_opt (compute_root H (mktree lvs v))) (fun p => Some (snd p, levels (fst p))).
+Proof. exact RV.Proofs.CodeTree.gen_compute_root_model. Qed.
+Print Assumptions C04_translated_compute_root_is_model.
+
+Theorem C04_translated_get_paths_is_model :
+  forall v lvs index,
+  ok_opt (gen_get_paths v lvs index) = ok_opt (get_paths (mktree lvs v) (N.to_nat index)).
+Proof. exact RV.Proofs.CodeTree.gen_get_paths_model. Qed.
+Print Assumptions C04_translated_get_paths_is_model.
+
+Theorem C04_translated_push_leaf_is_model :
+  forall H, HashLen H -> forall v lvs d,
+  ok_opt (RV.Proofs.CodeLib.omap (fun lv => mktree lv v) (gen_push_leaf H v lvs d))
+  = ok_opt (push_leaf H (mktree lvs v) d).
+Proof. exact RV.Proofs.CodeTree.gen_push_leaf_model. Qed.
+Print Assumptions C04_translated_push_leaf_is_model.
+
+Theorem C04_translated_reset_is_model :
+  forall v lvs,
+  RV.Proofs.CodeLib.omap (fun lv => mktree lv v) (gen_tree_reset lvs) = Ok (reset (mktree lvs v))
+  /\ ok_opt (gen_tree_is_empty lvs) = ok_opt (tree_is_empty (mktree lvs v)).
+Proof. exact RV.Proofs.CodeTree.gen_reset_model. Qed.
+Print Assumptions C04_translated_reset_is_model.
